@@ -37,7 +37,7 @@ def plan(tier, seed):
     if tier == "quick":
         specs = [{"kind": "plain_exh", "i": i, "n": 6, "max_obj": 3, "max_sp": 3, "ncost": 14} for i in range(6)]
         specs += [{"kind": "plain_rand", "i": i, "count": 60, "max_obj": 6, "max_sp": 5} for i in range(4)]
-        specs += [{"kind": "super_rand", "i": i, "count": 60, "max_obj": 4, "max_sp": 3, "max_fam": 3} for i in range(6)]
+        specs += [{"kind": "super_rand", "i": i, "count": 60, "max_obj": 5, "max_sp": 3, "max_fam": 4} for i in range(6)]
         return specs
     specs = [{"kind": "plain_exh", "i": i, "n": 16, "max_obj": 4, "max_sp": 3, "ncost": 20} for i in range(16)]
     specs += [{"kind": "plain_rand", "i": i, "count": 500, "max_obj": 7, "max_sp": 6} for i in range(8)]
